@@ -20,6 +20,7 @@ typedef struct { void* ss_sp; int ss_flags; size_t ss_size; } stack_t;
 #define SIGBUS 7
 #define SIGFPE 8
 #define SIGSEGV 11
+#define SIGALRM 14
 #define SIG_DFL ((void (*)(int))0)
 int sigaction(int sig, const struct sigaction* sa, struct sigaction* old);
 int sigaltstack(const stack_t* ss, stack_t* old);
